@@ -469,6 +469,7 @@ func (cc *caseCtx) tlsServe(conn net.Conn, o *Obs) {
 	cc.mu.Lock()
 	o.Hs = classifyHsErr(err)
 	cc.mu.Unlock()
+	conn.SetDeadline(time.Now().Add(time.Second))
 	if err == nil && ts.ConnectionState().NegotiatedProtocol == "h2" {
 		// answer the DoH request so that net/http does not keep re-dialling
 		(&http2.Server{}).ServeConn(ts, &http2.ServeConnOpts{Handler: http.HandlerFunc(func(w http.ResponseWriter, r *http.Request) {
